@@ -809,7 +809,9 @@ func stdlibInline() map[string]bool {
 		"(image.Point).In", "(image/color.NRGBA).RGBA", "(image/color.RGBA64).RGBA", "(image/color.RGBA).RGBA",
 		"(*image.YCbCr).YCbCrAt",
 		"image/color.YCbCrToRGB", "(image/color.YCbCr).RGBA",
-		"(image.Rectangle).Dx", "(image.Rectangle).Dy", "(image.Rectangle).Empty", "image.Rect", "image.Pt", "(image.Rectangle).Size", "(image.Point).Add", "(image.Point).Sub", "(image.Rectangle).Add", "(image.Rectangle).Sub", "(image.Rectangle).Canon",
+		"(image.Rectangle).Dx", "(image.Rectangle).Dy", "(image.Rectangle).Empty", "image.Rect", "image.Pt",
+		"(encoding/binary.bigEndian).Uint16", "(encoding/binary.bigEndian).Uint32", "(encoding/binary.bigEndian).Uint64",
+		"(encoding/binary.littleEndian).Uint16", "(encoding/binary.littleEndian).Uint32", "(encoding/binary.littleEndian).Uint64", "(image.Rectangle).Size", "(image.Point).Add", "(image.Point).Sub", "(image.Rectangle).Add", "(image.Rectangle).Sub", "(image.Rectangle).Canon",
 		"(*image.RGBA64).Bounds", "(*image.NRGBA64).Bounds", "(*image.RGBA).Bounds", "(*image.NRGBA).Bounds", "(*image.YCbCr).Bounds",
 		"(*image.Gray).Bounds", "(*image.Gray16).Bounds", "(*image.CMYK).Bounds", "(*image.Paletted).Bounds",
 	} {
